@@ -134,7 +134,12 @@ impl EventGen for Container {
                 if let Some((start, _end)) = self.0.event_range {
                     el.event_range = Some((start, start)); // emulate an Empty element
                 }
-                el.generate_events(context)
+                // The element is dispatched a second time (as if it were empty); that
+                // is not a further level of nesting, so must not count towards depth.
+                context.dec_depth()?;
+                let res = el.generate_events(context);
+                context.inc_depth()?;
+                res
             } else {
                 let mut new_el = self.0.clone();
                 // Special case <svg> elements with an xmlns attribute - passed through
